@@ -14,13 +14,20 @@ def validate_encoded(string):
   # because string can be invalid JSON and
   # JSON can contain forbidden chars (non-printable)
   validate_all_printable(string)
+  def refuse_constant(name):
+    raise ValueError("{} is not a JSON value".format(name))
   try:
-    json.loads(string)
+    obj = json.loads(string, parse_constant = refuse_constant)
   except Exception as err:
     raise gfapy.FormatError(
     "{} is not a valid JSON string\n".format(repr(string))+
     "json.loads raised a {} exception\n".format(err.__class__.__name__)+
     "error message: {}".format(str(err))) from err
+  if not isinstance(obj, (list, dict)):
+    # the same values which validate_decoded accepts
+    raise gfapy.FormatError(
+    "{} is not a valid JSON field\n".format(repr(string))+
+    "(the value shall be a JSON array or object)")
 
 def validate_decoded(obj):
   if isinstance(obj, gfapy.FieldArray):
